@@ -9,11 +9,14 @@ import EinoV.Proofs.C01
 import EinoV.Proofs.C01Refine
 import EinoV.Proofs.C01Chain
 import EinoV.Proofs.C01ChainKeys
+import EinoV.Proofs.C01Share
 import EinoV.Spec.Superstep
 import EinoV.Gen.FactsC01
 import EinoV.Expected.C01
 import EinoV.Proofs.TransPregel
 import EinoV.Proofs.TransMgrInit
+import EinoV.Proofs.TransStep
+import EinoV.Proofs.TransTab
 
 namespace EinoV.C01
 open EinoV.Engine EinoV.Gen
@@ -25,7 +28,10 @@ theorem facts_match :
     FactsC01.stepGuardOp = Expected.C01.stepGuardOp ∧
     FactsC01.stepGuardOnlyNonDag = true ∧
     FactsC01.limitValidated = true ∧
-    FactsC01.needAllIsNotEager = true := by decide
+    FactsC01.needAllIsNotEager = true ∧
+    FactsC01.appendBranchLeavesBuilderIntact = Expected.C01.appendBranchLeavesBuilderIntact ∧
+    FactsC01.appendBranchClosureReads = "internalBranch" ∧
+    FactsC01.appendParallelLeavesBuilderIntact = true := by decide
 
 /-- **pregel_refines_superstep.** For every runner in any-predecessor mode whose node keys
     are distinct (and differ from END) — cyclic or not, any branches, any fan-in —, every node
@@ -230,6 +236,97 @@ example : (match exFail.sem (.map []) with | .error e => some (e.cls, e.path) | 
 example : stagesOK false [.parallel [("p", tagF "b"), ("q", tagF "c")], .parallel [("r", tagF "b"), ("s", tagF "c")]] = false := by
   decide
 
+/-! ### shared builder objects: a chain is the composition of *its own* stages
+    (model: EinoV/Model/C01Share.lean, proofs: EinoV/Proofs/C01Share.lean)
+
+A `*compose.ChainBranch` / `*compose.Parallel` / `*compose.Lambda` / `*compose.Chain` value may be
+handed to `Append*` any number of times: twice in one chain, in several chains, in a chain used as a
+node and in a sibling.  `Share.Prog` is such a program over a pool of builder objects, `Share.Op` the
+sequence of build / compile / run operations, `Share.St.heap` what the `Append*` calls left in the
+builder objects.  The model is parameterised by the source fact `appendBranchLeavesBuilderIntact`
+(`Share.Mech`): `AppendBranch` keeps the key table of an append in a local captured by that append's
+closures. -/
+section Shared
+open EinoV.Chain.Share
+
+/-- the mechanism the source has (regenerated fact) -/
+def srcMech : Mech := { builderIntact := FactsC01.appendBranchLeavesBuilderIntact }
+
+theorem srcMech_intact : srcMech.builderIntact = true := by decide
+
+/-- **shared_builders_lower_alike.** What a sequence of `Append*` calls builds depends only on the
+    stage descriptions and their positions: for every state `h` the builder objects may be in
+    (whatever else they were appended to, before or after), the graph is the one `lower` builds
+    from the plain stage list — in particular the branch at position `i` routes to `node_i_branch_*`
+    also when the same `*ChainBranch` was appended again at position `i'`. -/
+theorem shared_builders_lower_alike (h : Heap) (ts : List TStage) :
+    lowerS srcMech h ts = lower (untag ts) :=
+  lowerS_intact srcMech srcMech_intact h ts
+
+/-- **shared_run_is_composition.** For every program (pool of builder objects, chains referring
+    to them and to each other as nodes), in every state `s` of the program — whatever was built,
+    compiled or run before —, running a compiled chain `c` whose resolved stage list is well-formed
+    returns the composition of that chain's own stages (`Chain.sem`), for every input. -/
+theorem shared_run_is_composition (p : Prog) (s : St) (c : Nat) (x : CVal) (rc : RChain)
+    (hrc : (p.resolved srcMech FactsC01.stepSlack [])[c]? = some rc) (hwf : rc.chain.WF)
+    (hc : s.compiled.contains c = true) :
+    (step srcMech FactsC01.stepSlack p s (.run c x)).2 = .ran (rc.chain.sem x) :=
+  run_is_sem srcMech srcMech_intact FactsC01.stepSlack p s c x rc hrc hwf hc
+
+/-- **shared_run_ignores_history.** Building, compiling or running anything else (any operation
+    sequence `ops`) does not change what an already compiled chain computes. -/
+theorem shared_run_ignores_history (p : Prog) (s : St) (ops : List Op) (c : Nat) (x : CVal) (rc : RChain)
+    (hrc : (p.resolved srcMech FactsC01.stepSlack [])[c]? = some rc) (hwf : rc.chain.WF)
+    (hc : s.compiled.contains c = true) :
+    (step srcMech FactsC01.stepSlack p (after srcMech FactsC01.stepSlack p s ops) (.run c x)).2
+      = (step srcMech FactsC01.stepSlack p s (.run c x)).2 := by
+  rw [shared_run_is_composition p s c x rc hrc hwf hc,
+    shared_run_is_composition p _ c x rc hrc hwf (after_compiled_mono _ _ p c ops s hc)]
+
+/-- **shared_compile_accepts_wf.** `Compile` of a chain whose `Append*` calls were issued reports
+    acceptance exactly when no reference dangles, every chain used as a node is accepted, and the
+    resolved stage list is well-formed — sharing builder objects neither adds nor removes a
+    rejection. -/
+theorem shared_compile_accepts_wf (p : Prog) (s : St) (c : Nat) (rc : RChain)
+    (hrc : (p.resolved srcMech FactsC01.stepSlack [])[c]? = some rc) (hb : s.built.contains c = true) :
+    (step srcMech FactsC01.stepSlack p s (.compile c)).2 = .compiled rc.accepted ∧
+    (rc.accepted = true ↔ rc.ok = true ∧ rc.chain.WF) := by
+  refine ⟨compile_out srcMech srcMech_intact FactsC01.stepSlack p s c rc hrc hb, ?_⟩
+  simp only [RChain.accepted, Bool.and_eq_true]
+  exact ⟨fun h => ⟨h.1, wf_of_wfB _ h.2⟩, fun h => ⟨h.1, wfB_of_wf _ h.2⟩⟩
+
+/-- non-vacuity: one `*ChainBranch` appended twice in one chain (`route ; mid ; route`) and once
+    more in a second chain that also uses the first chain as a node -/
+def exShare : Prog :=
+  { pool := [.branch pickF [("l", tagF "d"), ("r", tagF "e")]],
+    chains := [[.shared 0, .own (.lambda (tagF "m")), .shared 0],
+               [.own (.lambda (tagF "p")), .sub 0, .shared 0]] }
+
+def exOps : List Op :=
+  [.build 0, .compile 0, .run 0 (.map []), .build 1, .compile 1, .run 0 (.map []), .run 1 (.map [])]
+
+def outKeys : Out → Option (List String)
+  | .ran (.ok v) => some (cvalKeys v)
+  | .ran (.error _) => some ["error"]
+  | .compiled b => some [toString b]
+  | .none => none
+
+/-- both chains are accepted; chain 0 computes the same before and after chain 1 is built -/
+example : (exec { builderIntact := true } 10 exShare {} exOps).map outKeys =
+    [none, some ["true"], some ["d", "m", "d"], none, some ["true"], some ["d", "m", "d"],
+     some ["p", "e", "m", "e", "d"]] := by decide
+
+/-- the hypotheses of `shared_run_is_composition` are satisfiable by this program -/
+example : ((exShare.resolved { builderIntact := true } 10 []).map (fun rc => rc.accepted)) = [true, true] := by decide
+
+/-- the fact matters: were the key table kept in the `*ChainBranch` (`builderIntact = false`), the
+    first `route` of chain 0 would name the node of the later append and the run would no longer
+    return the composition of the stages -/
+example : (exec { builderIntact := false } 10 exShare {} exOps).map outKeys =
+    [none, some ["true"], some ["error"], none, some ["true"], some ["error"], some ["error"]] := by decide
+
+end Shared
+
 /-! ### The source itself: compose/pregel.go translated (Gen/TransC01.lean) refines the channel model
 
 `tools/factgen/gotrans.go` re-translates `pregelChannel.{reportValues, get, reportSkip,
@@ -320,5 +417,74 @@ theorem translated_reportBranch_is_noop (ext : Ext V) (mext : MgrExt V) (r : Run
   simpa only [hd] using reportBranch_pregel ext mext r c fuel from_ sk hd hrel (hd ▸ hok) hcl hsk
 
 end TranslatedManager
+
+/-! ### The translated step function (compose/graph_run.go → Gen/TransStep.lean), any-predecessor mode
+
+  The refinement theorems of Proofs/TransStep.lean (stated in full in Props/C02.lean) specialised to
+  `r.dag = false`: no acyclicity hypothesis (a `pregelChannel` never passes a skip on, so `reportBranch`'s
+  work list is empty).  `run_pregel` stands on the model's `calcNext`; this says that `calcNext` is what
+  `runner.calculateNextTasks` computes, and that the translated function never returns `.panic` / `.unspecified`. -/
+section TranslatedStep
+open EinoV.GoSem EinoV.TransMgr EinoV.TransStep EinoV.Gen.TransMgr EinoV.Gen.TransStep
+variable {V : Type} [Inhabited V]
+
+theorem translated_step_source_is_current : FactsC01.stepFunctionTranslated = true := by decide
+
+theorem translated_calculateNextTasks_refines (ops : ValOps V) (es : V) (mext : MgrExt V) (sext : StepExt V)
+    (r : Runner V) (gr : runner V) (hd : r.dag = false)
+    (hE : NoBranchHandlers sext) (hM : NoHandlers mext)
+    (ts : List (task V)) (ds : List (Done V)) (hrel : ListRel (TaskRel sext r) ts ds) (cm : Chans V) :
+    ∃ N, ∀ fuel, N ≤ fuel → ∀ c om, toChans c.channels = cm → c.isStream = false → MgrInv r c →
+      CallsClosed r c → SubsOK gr c →
+      match calcNext (TransDag.opsFor ops es false) r cm ds with
+      | .ok (cm3, .result v) => ∃ c',
+          runner_calculateNextTasks (TransDag.extOf ops es) mext sext fuel gr ts false c om = .ret (c', [], v, none) ∧
+          toChans c'.channels = cm3 ∧ Frame c c' ∧ ChansOK r.dag c'.channels
+      | .ok (cm3, .tasks ready) => ∃ c',
+          runner_calculateNextTasks (TransDag.extOf ops es) mext sext fuel gr ts false c om
+            = .ret (c', ready.map (mkTask gr), default, none) ∧
+          toChans c'.channels = cm3 ∧ Frame c c' ∧ ChansOK r.dag c'.channels
+      | .error _ => ∃ c' e,
+          runner_calculateNextTasks (TransDag.extOf ops es) mext sext fuel gr ts false c om
+            = .ret (c', [], default, some e) :=
+  calculateNextTasks_refines ops es mext sext r gr (fun _ => 0) (fun h => by simp [hd] at h)
+    hE hM ts ds hrel cm
+
+theorem translated_step_total (ops : ValOps V) (es : V) (mext : MgrExt V) (sext : StepExt V)
+    (r : Runner V) (gr : runner V) (hd : r.dag = false)
+    (hE : NoBranchHandlers sext) (hM : NoHandlers mext)
+    (ts : List (task V)) (ds : List (Done V)) (hrel : ListRel (TaskRel sext r) ts ds) (cm : Chans V) :
+    ∃ N, ∀ fuel, N ≤ fuel → ∀ c om, toChans c.channels = cm → c.isStream = false → MgrInv r c →
+      CallsClosed r c → SubsOK gr c →
+      ∃ res, runner_calculateNextTasks (TransDag.extOf ops es) mext sext fuel gr ts false c om = .ret res :=
+  step_total ops es mext sext r gr (fun _ => 0) (fun h => by simp [hd] at h) hE hM ts ds hrel cm
+
+end TranslatedStep
+
+/-! ### The translated table-building code (Gen/TransTab.lean; gotrans phase 5), any-predecessor mode
+
+  Stated in full in Props/C02.lean.  The instance for `r.dag = false`: `compile` stores a nil `chanBuilder`,
+  `initChannelManager` (translated) falls back to the translated `pregelChannelBuilder`, and the manager it
+  returns satisfies the hypotheses of the translated manager and step function. -/
+section TranslatedTables
+open EinoV.GoSem EinoV.TransMgr EinoV.TransStep EinoV.TransTab EinoV.Gen.TransMgr EinoV.Gen.TransTab
+variable {V : Type} [Inhabited V]
+
+theorem translated_tables_source_is_current : FactsC01.tablesTranslated = true := by decide
+
+theorem translated_init_hypotheses_from_source (ext : Ext V) (mext : MgrExt V) (gr : runner V) (r : Runner V)
+    (s : Bool) (hd : r.dag = false) (hb : gr.chanBuilder = .nil)
+    (hkeys : akeys gr.chanSubscribeTo = r.nodes.map (·.key))
+    (hsucc : gr.successors = r.nodes.map (fun n => (n.key, n.successors)))
+    (hdata : gr.dataPredecessors = r.dataPreds) (hctrl : gr.controlPredecessors = r.ctrlPreds)
+    (hnd : (akeys (initChans r)).Nodup)
+    (hdk : (akeys r.dataPreds).Nodup) (hck : (akeys r.ctrlPreds).Nodup)
+    (hc : RunnerClosed r) (hs : ∀ k ∈ r.start.successors, k ∈ akeys (initChans r)) :
+    ∃ c, runner_initChannelManager ext mext gr s = .ret c ∧ c.isStream = s ∧
+      MgrInv r c ∧ CallsClosed r c ∧ toChans c.channels = initChans r :=
+  init_hypotheses_from_source ext mext gr r s
+    ⟨hkeys, hsucc, hdata, hctrl, ⟨fun h => by simp [hd] at h, fun _ => by simp [hb]⟩⟩ hnd hdk hck hc hs
+
+end TranslatedTables
 
 end EinoV.C01
